@@ -395,6 +395,23 @@ Section Order.
     Lemma afilter_sorted f l : sorted l -> sorted (afilter f l).
     Proof. apply filter_sorted. Qed.
 
+    (* ---- compare / equal: lexicographic on the bindings in key order; keys by cmp, then values *)
+    Fixpoint alex (g : V -> V -> Z) (l1 l2 : alist) : Z :=
+      match l1, l2 with
+      | [], [] => 0
+      | [], _ => -1
+      | _, [] => 1
+      | (k1, v1) :: l1', (k2, v2) :: l2' =>
+          if negb (cmp k1 k2 =? 0) then cmp k1 k2
+          else if negb (g v1 v2 =? 0) then g v1 v2 else alex g l1' l2'
+      end.
+    Fixpoint aeqb (g : V -> V -> bool) (l1 l2 : alist) : bool :=
+      match l1, l2 with
+      | [], [] => true
+      | (k1, v1) :: l1', (k2, v2) :: l2' => (cmp k1 k2 =? 0) && g v1 v2 && aeqb g l1' l2'
+      | _, _ => false
+      end.
+
     (* ---- lookup characterises a sorted association list *)
     Lemma find_some_in k v l : find k l = Some v -> In (k, v) l.
     Proof.
@@ -505,6 +522,80 @@ Section Order.
       - rewrite find_put. destruct (cmp k' k =? 0); auto.
       - rewrite find_del by auto. destruct (cmp k' k =? 0); auto.
     Qed.
+
+    (* ---- left-biased union as an executable operation on association lists *)
+    Definition aunion_step (acc : alist) (p : K * V) : alist :=
+      match find (fst p) acc with Some _ => acc | None => put (fst p) (snd p) acc end.
+
+    Lemma aunion_step_sorted acc p : sorted acc -> sorted (aunion_step acc p).
+    Proof. intros H. unfold aunion_step. destruct (find (fst p) acc); auto. now apply put_sorted. Qed.
+
+    Lemma find_aunion_step k acc p :
+      find k (aunion_step acc p) =
+        match find k acc with Some x => Some x | None => if cmp k (fst p) =? 0 then Some (snd p) else None end.
+    Proof.
+      unfold aunion_step. destruct (find (fst p) acc) eqn:E.
+      - destruct (find k acc) eqn:E2; auto. destruct (Z.eqb_spec (cmp k (fst p)) 0) as [E0|]; auto.
+        apply (cmp_eq O) in E0. subst k. congruence.
+      - rewrite find_put. destruct (Z.eqb_spec (cmp k (fst p)) 0) as [E0|].
+        + apply (cmp_eq O) in E0. subst k. now rewrite E.
+        + now destruct (find k acc).
+    Qed.
+
+    Lemma aunion_spec l2 : sorted l2 -> forall l1, sorted l1 ->
+      sorted (aunion l1 l2) /\
+      forall k, find k (aunion l1 l2) = match find k l1 with Some x => Some x | None => find k l2 end.
+    Proof.
+      unfold aunion. fold aunion_step.
+      induction l2 as [|[k2 v2] l2 IH]; intros S2 l1 S1; cbn [fold_left].
+      - split; auto. intros k. now destruct (find k l1).
+      - cbn [sorted] in S2. destruct S2 as [G2 S2].
+        change (fold_left _ l2 ?a) with (fold_left aunion_step l2 a).
+        destruct (IH S2 (aunion_step l1 (k2, v2)) (aunion_step_sorted _ _ S1)) as [Ss Hf]. split; [exact Ss|].
+        intros k. rewrite Hf, find_aunion_step. cbn [fst snd find].
+        destruct (find k l1); auto. destruct (Z.eqb_spec (cmp k k2) 0) as [E0|]; auto.
+    Qed.
+
+    Lemma find_afilter f k l : sorted l ->
+      find k (afilter f l) = match find k l with Some v => if f k v then Some v else None | None => None end.
+    Proof.
+      induction l as [|[k1 v1] l IH]; cbn [afilter filter find sorted fst snd]; auto. intros [G S].
+      fold (afilter f l). destruct (Z.eqb_spec (cmp k k1) 0) as [E|N].
+      - apply (cmp_eq O) in E. subst k1. destruct (f k v1) eqn:Ef.
+        + cbn [find]. now rewrite cmp_refl.
+        + rewrite IH by auto. now rewrite find_gt_none by auto.
+      - destruct (f k1 v1); [cbn [find]; destruct (Z.eqb_spec (cmp k k1) 0); [lia|]|]; now apply IH.
+    Qed.
+
+    (* ---- extremes of a sorted list bound all its keys *)
+    Lemma sorted_last_keys_lt l p k : sorted l -> last_opt l = Some p -> lt (fst p) k -> keys_lt l k.
+    Proof.
+      induction l as [|[k1 v1] l IH]; intros S L H; [constructor|].
+      destruct l as [|q l'].
+      - cbn in L. inversion L; subst. constructor; auto.
+      - cbn [sorted] in S. destruct S as [G S]. rewrite last_opt_cons in L by discriminate.
+        pose proof (IH S L H) as Hk. constructor; auto. cbn [fst].
+        inversion G; subst. inversion Hk; subst. eapply lt_trans; eauto.
+    Qed.
+    Lemma sorted_hd_keys_gt l p k : sorted l -> hd_error l = Some p -> lt k (fst p) -> keys_gt l k.
+    Proof.
+      destruct l as [|[k1 v1] l]; intros S L H; [constructor|]. cbn in L. inversion L; subst. cbn [fst] in H.
+      cbn [sorted] in S. destruct S as [G S]. constructor; auto. eapply keys_gt_trans; eauto.
+    Qed.
+    Lemma in_find k v l : sorted l -> In (k, v) l -> find k l = Some v.
+    Proof.
+      induction l as [|[k1 v1] l IH]; cbn [sorted find In]; [tauto|]. intros [G S] [E|Hin].
+      - inversion E; subst. now rewrite cmp_refl.
+      - destruct (Z.eqb_spec (cmp k k1) 0) as [E0|]; [|auto].
+        apply (cmp_eq O) in E0. subst k1. exfalso. unfold keys_gt in G. rewrite Forall_forall in G.
+        apply G in Hin. cbn in Hin. eapply lt_irrefl; eauto.
+    Qed.
+    Lemma sorted_nodup l : sorted l -> NoDup (map fst l).
+    Proof.
+      induction l as [|[k1 v1] l IH]; cbn [sorted map fst]; [constructor|]. intros [G S]. constructor; auto.
+      intros Hin. apply in_map_iff in Hin. destruct Hin as ([k2 v2] & E & Hin). cbn in E. subst k2.
+      unfold keys_gt in G. rewrite Forall_forall in G. apply G in Hin. cbn in Hin. eapply lt_irrefl; eauto.
+    Qed.
   End Maps.
 
   (* ------------------------------------------------------------------ pointwise combination of two maps
@@ -590,5 +681,7 @@ Arguments above {K} cmp {V}.
 Arguments afilter {K V}.
 Arguments afold {K V A}.
 Arguments aunion {K} cmp {V}.
+Arguments alex {K} cmp {V}.
+Arguments aeqb {K} cmp {V}.
 Arguments pointwise {K} cmp {V1 V2 V3}.
 Arguments opt_entry {K V}.
